@@ -44,7 +44,7 @@ def jobs(tier, seed):
     js += [dict(name=f'{c}-one-run-sparse', cls=c, mode='one-run-sparse', n=n) for c in cl if c.startswith(('ANOVA', 'NICV', 'SNR'))]
     # attacks with a convergence step: the final results are still those of the whole trace set. In the two-run job (6 traces, step 2,
     # runs of 3 and 3) the first run ends off the step grid and, with batches of 2, the second ends on it one trace after its last point
-    att = [c for c in cl if c.endswith('Attack') and not c.startswith('MIA')]
+    att = [c for c in CLASSES_Q if c.endswith('Attack') and not c.startswith('MIA')]          # the convergence bookkeeping is class independent: the quick classes in both tiers
     js += [dict(name=f'{c}-one-run-conv2', cls=c, mode='one-run-conv2', n=n) for c in att]
     js += [dict(name=f'{c}-two-runs-conv2', cls=c, mode='two-runs-conv2', n=6, split=3) for c in att]
     return js
